@@ -68,3 +68,12 @@ package model
 //@   ensures appended_last: len(d.Pages) == old(len(d.Pages)) + 1 && forall k int :: {d.Pages[k]} 0 <= k && k < old(len(d.Pages)) ==> d.Pages[k] == old(d.Pages)[k]
 //@   ensures keeps_the_stamped_source_page: old(page.Number) != 0 ==> d.Pages[old(len(d.Pages))].Number == old(page.Number)
 //@   ensures numbers_an_unstamped_page_by_position: old(page.Number) == 0 ==> d.Pages[old(len(d.Pages))].Number == old(len(d.Pages)) + 1
+
+// ---- C10/C12: a table-of-contents entry carries the heading's level and text and the NUMBER of the page it is on
+// (the source page number stamped on the page, not the page's position in a selection) ----
+//@ func (*Document) TableOfContents results (res)
+//@   property C10, C12
+//@   flags nosafety
+//@   loop 1:
+//@     step entry_of_this_heading_on_this_page: len(toc) == prev(len(toc)) + 1 && toc[len(toc)-1].Page == page.Number && toc[len(toc)-1].Level == h.Level && toc[len(toc)-1].Text == h.Text
+//@     step earlier_entries_kept: forall k int :: {toc[k]} 0 <= k && k < prev(len(toc)) ==> toc[k] == prev(toc)[k]
